@@ -30,6 +30,7 @@ type mapCfg struct {
 	Src    string `json:"src"`   // "random" | "tlc"
 	Marsh  string `json:"marsh"` // "" (default JSON) | "gob" (custom marshaler, registered types)
 	Cmp    bool   `json:"cmp"`   // a caller-supplied KeyCompare (same order as the default one)
+	InMem  bool   `json:"inmem"` // trees made by NewInMemory(): no store, default branch factor, never persisted
 }
 
 type obsT struct {
@@ -278,11 +279,19 @@ func (r *mapRun) exec(op absOp) {
 			return
 		}
 	}
+	if r.cfg.InMem && (op.Op == "root" || op.Op == "load") {
+		return // trees without a store are never persisted
+	}
 	r.st.begin()
 	switch op.Op {
 	case "new":
 		var m *mast.Mast
 		ev.Res, ev.Msg = guard(func() error {
+			if r.cfg.InMem {
+				im := mast.NewInMemory()
+				m = &im
+				return nil
+			}
 			o := nfOf(r.cfg.NF)
 			o.BranchFactor = r.cfg.Bf
 			var err error
@@ -515,6 +524,12 @@ func randomMapTrace(id int, seed int64, steps int, out *json.Encoder, fixed *map
 			cfg.KT = []string{"int", "string", "bytes", "userkey", "struct", "uint64"}[rng.Intn(6)]
 			cfg.VT = []string{"int", "string", "intslice"}[rng.Intn(3)]
 		}
+		if (profile == "general" || profile == "versions") && cfg.Marsh == "" && !cfg.Cmp && rng.Intn(10) == 0 {
+			cfg.InMem = true
+			cfg.Bf = mast.DefaultBranchFactor
+			cfg.NK = 18 + rng.Intn(5) // more than one level needs more than 16 entries
+			cfg.Cache = "none"
+		}
 		if profile == "nocache" {
 			cfg.Cache = "none"
 			cfg.NK = 8 + rng.Intn(7)
@@ -532,6 +547,16 @@ func randomMapTrace(id int, seed int64, steps int, out *json.Encoder, fixed *map
 	sh := &shadow{live: map[int]map[int]int{}, cur: map[int]bool{}}
 	r.exec(absOp{Op: "new", H: 1})
 	sh.live[1] = map[int]int{}
+	if cfg.InMem {
+		// the default branch factor needs more than 16 entries for a second level
+		for k := 1; k <= cfg.NK; k++ {
+			if rng.Intn(8) != 0 {
+				v := 1 + rng.Intn(cfg.NV)
+				r.exec(absOp{Op: "ins", H: 1, K: k, V: v})
+				sh.live[1][k] = v
+			}
+		}
+	}
 	pickLive := func() int {
 		var ids []int
 		for id := range sh.live {
